@@ -614,6 +614,9 @@ func VH10e_churn() {
 		verif.Assert(len(td.Dials) == n, lab+"/connection-attempt-by-a-closed-dialer")
 		// a connection of the first listener comes and goes
 		p := side.Peer("c" + sfx)
+		if i%2 == 0 {
+			p.CloseErr = vt.ErrReset // closing this one reports an error; it is closed all the same
+		}
 		if i%3 != 2 {
 			p.Drop()
 			verif.Quiesce()
